@@ -5,6 +5,7 @@ code with txtorcon.  Used by C14, C15 and C17.
 API (everything else is inherited from vf.faketor.core.FakeTor)
 ---------------------------------------------------------------
 tor = OnionTor(non_anonymous_mode=False, best="RSA1024", auto_upload=0, send_key_despite_discard=False)
+  opaque_caller_keys=True / unlinked_auth_service_ids=True   server variants, see __init__ (defensive workloads only)
   send_key_despite_discard=True   OUT-OF-SPEC server (a Tor that ignores / predates DiscardPK, a relaying
                         controller): the ADD_ONION reply carries PrivateKey= although DiscardPK was sent.
                         Only for defensive workloads, which must tag their cases as out-of-spec-server input.
@@ -155,6 +156,24 @@ def ed_from_blob(blob):
     return EdKey(raw)
 
 
+class OpaqueKey(object):
+    """a caller-supplied KeyBlob the reference server does not decode (server variant
+    opaque_caller_keys): it is kept verbatim and gets a stable id derived from the blob text"""
+
+    def __init__(self, key_type, blob):
+        self.key_type = key_type
+        self.blob = blob
+        h = hashlib.sha256(("vf-opaque/%s/%s" % (key_type, blob)).encode("ascii")).digest()
+        self.service_id = AO.v2_service_id(h) if key_type == "RSA1024" else AO.v3_service_id(h)
+        self.opaque = True
+
+    def spec(self):
+        return "%s:%s" % (self.key_type, self.blob)
+
+
+_B64 = set("ABCDEFGHIJKLMNOPQRSTUVWXYZabcdefghijklmnopqrstuvwxyz0123456789+/=")
+
+
 class KeyPool(object):
     """process-wide lazily generated keys: index -> key (same index, same key)"""
 
@@ -200,9 +219,10 @@ def valid_cookie(blob):
 class OnionRecord(object):
     """one ephemeral service as Tor holds it"""
 
-    def __init__(self, key, generated, parsed, client_auth):
-        self.key = key                      # RsaKey | EdKey
-        self.service_id = key.service_id
+    def __init__(self, key, generated, parsed, client_auth, service_id=None):
+        self.key = key                      # RsaKey | EdKey | OpaqueKey
+        self.service_id = service_id or key.service_id
+        self.unlinked = self.service_id != key.service_id    # server variant: id not derived from the key
         self.version = 2 if key.key_type == "RSA1024" else 3
         self.generated = generated          # True: Tor made the key (NEW:...)
         self.parsed = parsed                # refs.addonion.AddOnion
@@ -267,6 +287,12 @@ class OnionTor(FakeTor):
         self.best = kw.pop("best", "RSA1024")
         self.auto_upload = kw.pop("auto_upload", 0)
         self.allow_relative_dirs = kw.pop("allow_relative_dirs", False)
+        # SERVER VARIANTS for defensive workloads (cases using them must be tagged as such an input class):
+        #  opaque_caller_keys: a caller-supplied KeyBlob that does not decode is accepted verbatim (OpaqueKey)
+        #  unlinked_auth_service_ids: the ServiceID returned for a BasicAuth service is NOT the hash of its key
+        #    (a rotated / differently derived id); HS_DESC events (hs_address) keep naming the key-derived id
+        self.opaque_caller_keys = kw.pop("opaque_caller_keys", False)
+        self.unlinked_auth_service_ids = kw.pop("unlinked_auth_service_ids", False)
         # OUT OF SPEC (defensive workloads only): answer with PrivateKey= although DiscardPK was given
         self.send_key_despite_discard = kw.pop("send_key_despite_discard", False)
         if kw.get("conf") is None:
@@ -329,7 +355,8 @@ class OnionTor(FakeTor):
 
     @staticmethod
     def hs_address(record):
-        return record.service_id
+        # server variant unlinked_auth_service_ids: HS_DESC keeps naming the key-derived (permanent) id
+        return record.key.service_id if getattr(record, "unlinked", False) else record.service_id
 
     # ---- ADD_ONION / DEL_ONION ----------------------------------------------
     def _new_key(self, key_type):
@@ -375,7 +402,9 @@ class OnionTor(FakeTor):
             try:
                 key = rsa_from_blob(a.key_blob) if ktype == "RSA1024" else ed_from_blob(a.key_blob)
             except ValueError as e:
-                return refuse(512, str(e))
+                if not (self.opaque_caller_keys and set(a.key_blob) <= _B64):
+                    return refuse(512, str(e))
+                key = OpaqueKey(ktype, a.key_blob)
             generated = False
             if key.service_id in self.onions:
                 return refuse(550, "Onion address collision")
@@ -390,7 +419,12 @@ class OnionTor(FakeTor):
                 blob = client_cookie("%s/%s" % (key.service_id, name))
                 made.append((name, blob))
             auths[name] = blob
-        rec = OnionRecord(key, generated, a, auths)
+        sid = None
+        if self.unlinked_auth_service_ids and "BasicAuth" in a.flags:
+            sid = AO.v2_service_id(b"vf-unlinked-service-id/" + key.service_id.encode("ascii"))
+            if sid in self.onions:
+                return refuse(550, "Onion address collision")
+        rec = OnionRecord(key, generated, a, auths, sid)
         self.onions[rec.service_id] = rec
         send_key = generated and (not rec.discard or self.send_key_despite_discard)
         rec.key_sent = send_key
@@ -778,6 +812,15 @@ def selftest():
         assert len(t2.fs_services) == 1; n += 1
     finally:
         shutil.rmtree(root, ignore_errors=True)
+    t3 = OnionTor(opaque_caller_keys=True, unlinked_auth_service_ids=True)
+    t3.authenticated = True
+    code, parts = t3.dispatch("ADD_ONION RSA1024:SARA1024AAAA Port=80")
+    assert code == 250 and len(parts[0][1]) == len("ServiceID=") + 16 and len(parts) == 2; n += 1
+    code, parts = t3.dispatch("ADD_ONION NEW:RSA1024 Flags=BasicAuth Port=80 ClientAuth=bob")
+    r3 = list(t3.onions.values())[-1]
+    assert code == 250 and r3.unlinked and parts[0][1] == "ServiceID=" + r3.service_id != "ServiceID=" + r3.key.service_id; n += 1
+    assert t3.hs_address(r3) == r3.key.service_id and t3.dispatch("DEL_ONION " + r3.key.service_id)[0] == 552; n += 1
+    assert t3.dispatch("DEL_ONION " + r3.service_id) == OK; n += 1
     r = PortReactor()
     p = r.listenTCP(0, None, interface="127.0.0.1")
     assert p.getHost().port == 40001 and r.open_ports() == [p]
